@@ -94,6 +94,9 @@ func cmdCheck(args []string) int {
 		if c.Trusted || !hasProp(c, *prop) {
 			continue
 		}
+		if c.Inline {
+			continue // verified at every site it is inlined into (with that site's context), not on its own
+		}
 		if *only != "" && !strings.Contains(k, *only) {
 			continue
 		}
